@@ -1026,7 +1026,22 @@ fn drive(run: &mut Run, cases: &[String], dir: &std::path::Path) {
                 } else {
                     let (a, b) = split_input(payload);
                     let bytes = [a, b].concat();
-                    let cmd = if kind == "rip" || kind == "ripc" { rip_cmd_at(&bytes, j) } else { igs_cmd_at(&bytes, j) };
+                    let mut cmd = if kind == "rip" || kind == "ripc" { rip_cmd_at(&bytes, j) } else { igs_cmd_at(&bytes, j) };
+                    if cmd == "&" {
+                        // a loop command: name the command the loop runs (and, for GrabScreen, its mode), so that a recorded
+                        // finding about one looped command cannot hide a hang of another
+                        let upto = &bytes[..(j + 1).min(bytes.len())];
+                        if let Some(pos) = upto.iter().rposition(|c| *c == b'&') {
+                            let rest = String::from_utf8_lossy(&bytes[pos + 1..]).to_string();
+                            let f: Vec<&str> = rest.trim_start_matches('>').split(|c| c == ',' || c == ':').collect();
+                            if f.len() > 4 {
+                                cmd.push_str(f[4].trim());
+                                if f[4].trim() == "G" && f.len() > 6 {
+                                    cmd.push_str(f[6].trim());
+                                }
+                            }
+                        }
+                    }
                     format!("{}:{}:{}", how, kind, cmd)
                 };
                 run.oracle_fail(&key, &cases[i], &format!("worker {} on this case (character {}): no answer within {} s or the process died", how, j, hang_secs()));
